@@ -1,5 +1,6 @@
 import SaphyrModel.Driver.Codec
 import SaphyrModel.Grammar
+import SaphyrModel.Spec.Positions
 /-! Line-protocol driver of the model (`lean_exe saphyr_model`): answers the same requests as the
 Rust harness `impl_run`, from the model's executable definitions. -/
 open SaphyrModel SaphyrModel.Sc SaphyrModel.Driver ProtoR ProtoE
@@ -200,6 +201,24 @@ def runGram (fields : List String) : String :=
         | _, none => go g' next (i + 1) es
   go ⟨0, []⟩ 1 0 evs
 
+/-- `pos <text> <items…> ; <tail>`: every mark of every item (token or event) and of the error must
+    be true for the text (spec oracle for C12) -/
+def runPos (hex : String) (fields : List String) : String :=
+  let text := decodeHex hex
+  let items := fields.takeWhile (· != ";")
+  let marksOf (it : String) : List Marker :=
+    match it.splitOn "@" with
+    | [_, sp] => let s := readSpan sp; [s.start, s.stop]
+    | _ => []
+  let errMarks := match fields.dropWhile (· != ";") with
+    | [";", "ERR", m, _] => [readMark m]
+    | [";", "DONE", m] => [readMark m]
+    | _ => []
+  let rec go (i : Nat) : List String → String
+    | [] => if errMarks.all (Spec.markTrue text) then "ok" else s!"bad tail"
+    | it :: r => if (marksOf it).all (Spec.markTrue text) then go (i + 1) r else s!"bad {i}"
+  go 0 items
+
 def runLine (line : String) : String :=
   match line.trimAscii.toString.splitOn " " with
   | ["tok", kind, cap, hex] => runTok kind cap hex
@@ -227,6 +246,7 @@ def runLine (line : String) : String :=
     | none => "bad-tree"
   | ["cls", cp] => runCls cp
   | "gram" :: rest => runGram rest
+  | "pos" :: hex :: rest => runPos hex rest
   | _ => "bad-op"
 
 partial def loop (h : IO.FS.Stream) (out : IO.FS.Stream) : IO Unit := do
